@@ -347,6 +347,9 @@ func (g *G) table(s *Schema, name string) Table {
 		c := g.col(nm, t.Strict)
 		if nm == "id" {
 			c.Type = []string{"integer", "integer", "int", "bigint", "text"}[g.r.Intn(5)]
+			if t.Strict && c.Type == "bigint" {
+				c.Type = "integer"
+			}
 			c.Def = nil
 		}
 		t.Cols = append(t.Cols, c)
